@@ -5,8 +5,9 @@
 (* as Spec, or separately):                                                *)
 (*                                                                         *)
 (* SpecCfg: the configuration family.  A configuration is                  *)
-(*   [kind, n, variant, mu, lam, bc]: kind "cart" | "simplex", n = cells   *)
-(*   per direction (an element of Sizes), variant "plain" | "perturbed"    *)
+(*   [kind, n, variant, mu, lam, bc, coef]: kind "cart" | "simplex",       *)
+(*   n = cells per direction (an element of Sizes), variant "plain" |      *)
+(*   "perturbed"                                                           *)
 (*   (lattice perturbation / integer shear keeping faces planar - made by  *)
 (*   the harness), integer Lame parameters, boundary mode "dir" (all       *)
 (*   Dirichlet) | "mix" (Dirichlet / Neumann mix, see SpecBc).  TLC emits  *)
@@ -22,7 +23,9 @@
 (*   emits, per grid, every set of Neumann boundary faces with at most     *)
 (*   MaxNeu elements (2D also: all boundary faces but at most one) that    *)
 (*   satisfies MechOracle!Admissible - in 3D no two Neumann faces share an *)
-(*   edge.  The harness samples from the emitted sets.                     *)
+(*   edge.  The harness samples from the emitted sets.  Grids must be a    *)
+(*   genuine constant (written into the MC module, not read with IOEnv):   *)
+(*   TLC then evaluates the tables GridBF / AdmSets once.                  *)
 (***************************************************************************)
 EXTENDS MechOracle, SequencesExt, Json, IOUtils
 
@@ -31,6 +34,9 @@ CONSTANTS Kinds,      \* subset of {"cart", "simplex"}
           Variants,   \* subset of {"plain", "perturbed"}
           Mus, Lams,  \* sets of integers
           BcModes,    \* subset of {"dir", "mix"}
+          Coefs,      \* set of records [alpha, p]: further coefficients of a configuration (C15: alpha = index into
+                      \* AlphaCat, p = pressure; C16: p = index of the translation vector; C13: {[alpha |-> 0, p |-> 0]})
+          AlphaCat,   \* sequence of coupling tensors (integer 3 x 3 matrices; <<>> if unused)
           Fields,     \* sequence of displacement gradients (integer 3 x 3 matrices)
           Grids,      \* SpecBc: sequence of grid records
           MaxNeu      \* SpecBc: largest enumerated Neumann set
@@ -58,8 +64,8 @@ InitCfg == stage = "lame" /\ cs = [mu |-> 0, lam |-> 0]
 PickLame == /\ stage = "lame" /\ stage' = "grid"
             /\ \E m \in Mus, l \in Lams : cs' = [mu |-> m, lam |-> l]
 PickGrid == /\ stage = "grid" /\ stage' = "done"
-            /\ \E k \in Kinds, n \in Sizes, v \in Variants, b \in BcModes :
-                 cs' = [kind |-> k, n |-> n, variant |-> v, mu |-> cs.mu, lam |-> cs.lam, bc |-> b]
+            /\ \E k \in Kinds, n \in Sizes, v \in Variants, b \in BcModes, co \in Coefs :
+                 cs' = [kind |-> k, n |-> n, variant |-> v, mu |-> cs.mu, lam |-> cs.lam, bc |-> b, coef |-> co]
 NextCfg == PickLame \/ PickGrid
 SpecCfg == InitCfg /\ [][NextCfg]_evars
 EmitCfg == stage = "done" => PrintT(ToJson(cs))
@@ -69,9 +75,21 @@ LawsCfg == stage = "grid" =>
   \A i \in 1..Len(RefGrids) :
     LET Gr == RefGrids[i]
         E == Exact(Gr)
+        Wn == OverAll(E.fn)
     IN /\ ValidE(Gr, E)
-       /\ \A k \in 1..Len(Fields) : FieldFits(Gr, Fields[k]) => OracleLaws(Gr, E, cs.mu, cs.lam, Fields[k])
+       /\ \A k \in 1..Len(Fields) : FieldFits(Gr, Fields[k]) =>
+            /\ OracleLaws(Gr, E, cs.mu, cs.lam, Fields[k])
+            \* the table form used by the judge is the pointwise oracle
+            /\ TractionTable(Wn, cs.mu, cs.lam, Fields[k]) = [f \in 1..NFaces(Gr) |-> ExactTraction(E, cs.mu, cs.lam, Fields[k], f)]
+            /\ DispTable(OverAll(E.fc), Fields[k], <<1, -2, 3>>)
+                 = [f \in 1..NFaces(Gr) |-> ExactBoundDisplacement(E, Fields[k], <<1, -2, 3>>, f)]
+            /\ \A a \in 1..Len(AlphaCat) :
+                 DivUTable(E, AlphaCat[a], Fields[k]) = [c \in 1..NCells(Gr) |-> ExactDivU(E, AlphaCat[a], Fields[k], c)]
        /\ \A f \in 1..NFaces(Gr) : ExactTraction(E, cs.mu, cs.lam, Zero3, f) = RVZero
+       \* the pressure force of a constant pressure on a closed cell surface vanishes, for every coupling tensor
+       /\ \A a \in 1..Len(AlphaCat) :
+            /\ \A c \in 1..NCells(Gr) : GradPClosed(Gr, E, AlphaCat[a], 3, c)
+            /\ GradPTable(Wn, AlphaCat[a], 3) = [f \in 1..NFaces(Gr) |-> ExactGradP(E, AlphaCat[a], 3, f)]
 \* the family contains translations, rotations and strains
 LawFamily == stage = "grid" =>
   /\ \E k \in 1..Len(Fields) : IsTranslation(Fields[k])
